@@ -85,5 +85,15 @@ add("C09",
     "real reply reader (success iff OK, False/None with errcode/errmsg iff NO, Error on BYE, next command still in step), "
     "and symbolic ASCII text through __read_line/__parse_error.",
     "DESIGN.md 3/C09", "CrossHair symbolic execution (z3) of __read_line/__read_response/__parse_error on replies from the RFC 5804 response grammar")
-for _p in ("C10", "C14", "C15", "C16", "C17"):
+add("C14",
+    "Bounded symbolic model checking of the emulated rename against a reference server: all initial states over a "
+    "3-name pool, all old/new pairs, body variants, and every placement of OK/NO/BYE/silence/closed-connection over the "
+    "up to five steps (lazily forced, so the fault tree is explored completely); the server's store before/after decides.",
+    "DESIGN.md 3/C14", "CrossHair symbolic execution (z3) enumerating server states and per-step fault schedules of Client.renamescript vs reference server")
+add("C17",
+    "Bounded symbolic model checking: bodies (0-3 look-alike lines, LF/CRLF, final newline) and listings (1-3 look-alike "
+    "names, active marker) held by the reference server and served in every encoding RFC 5804 allows; getscript and "
+    "listscripts must return them exactly.",
+    "DESIGN.md 3/C17", "CrossHair symbolic execution (z3) enumerating stored data and reply encodings served by a reference server to Client.getscript/listscripts")
+for _p in ("C10", "C15", "C16"):
     NOT_APPLICABLE[_p] = "check under construction in this session (see DESIGN.md section 3); not yet claimed"
